@@ -66,6 +66,23 @@ def run_(ctx):
         for k in tot:
             tot[k] += st[k]
         bad += [(cmd, m) for m in mism]
+    # one descriptor shared by all goroutines, on a file that never changes: every linearization
+    # gives every ReadAt the same answer, so each result is compared with it directly
+    shared_bad = []
+    shared_reads = 0
+    for impl in ("dir", "mem"):
+        cmd = "%s -sharedread %d -threads 8 -impl %s -seed %d" % (bins["fsstress"], 4000 if quick else 60000, impl, ctx.seed)
+        rc, out, err = vlib.sh(["bash", "-c", cmd], timeout=1800)
+        if rc != 0 and "fatal error" in err:
+            raise Crash(cmd + "\n" + err[err.find("fatal error"):][:3000])
+        for l in out.splitlines():
+            if l.startswith("SHAREDREAD"):
+                kv = dict(x.split("=") for x in l.split()[1:])
+                shared_reads += int(kv["reads"])
+                if int(kv["wrong"]):
+                    shared_bad.append({"cmd": cmd, "summary": l, "first_wrong_results": [x[:700] for x in out.splitlines() if x.startswith("WRONG")]})
+        if rc != 0 and not shared_bad:
+            raise vlib.BuildError("fsstress -sharedread failed: %s\n%s" % (cmd, err[-1500:]))
     races = []
     for (impl, n, th, ops) in [("mem", 60 if quick else 600, 8, 12)]:
         cmd, k, err = race_run(race_bin, ctx.seed, n, th, ops, impl)
@@ -80,7 +97,7 @@ def run_(ctx):
                 "non-trivial = two calls overlapped in real time",
         "samples": [vlib.history_lines("%s -seed %d -n 1 -threads 3 -ops 3" % (bins["fsstress"], ctx.seed), 0)[:40]],
         "operations": tot["ops"], "overlapping_invocations": tot["overlapping_invocations"], "calls_that_panicked": tot["panics"],
-        "lin_search_timed_out": tot["inconclusive"], "race_detector_runs": 1, "race_reports": len(races), "not_linearizable": len(bad),
+        "lin_search_timed_out": tot["inconclusive"], "shared_descriptor_reads": shared_reads, "race_detector_runs": 1, "race_reports": len(races), "not_linearizable": len(bad),
     })
     ctx.assumptions += ["DirFs: atomicity of each system call is the kernel's; List is documented non-atomic and AtomicCreate is atomic at its rename (C13)",
                         "little real parallelism in this sandbox: the static lock-shape obligations and the race detector carry most of the detection"]
@@ -88,9 +105,13 @@ def run_(ctx):
         verdict, lines = capture_bad(ctx, bdir, bad[0][0])
         vlib.violation(ctx, "history", {"kind": "recorded history is not linearizable w.r.t. the reference model (checker sound and complete)",
                                         "verdict": verdict or bad[0][1], "recorder_cmd": bad[0][0], "history": lines[:400]}, True)
+    if shared_bad:
+        vlib.violation(ctx, "shared-descriptor", {"kind": "ReadAt through a descriptor shared by several goroutines returned bytes other than those of [offset, offset+length) "
+                                                           "of a file that never changes: no linearization order explains the result",
+                                                   "file": "d0/fixed, 6000 bytes, byte i = (i*7 + i/251) % 251", "runs": shared_bad}, True)
     if races:
         vlib.violation(ctx, "race", {"kind": "data race inside the filesystem library", "reports": races}, True)
-    if failures and not bad and not races:
+    if failures and not bad and not races and not shared_bad:
         found = None
         for s in range(1, 4):
             for impl in ("mem", "dir"):
